@@ -459,3 +459,35 @@ Example C02_writer_ex_abandon_then_append :
   run_writer true [WOpen KArray [120]; WBasic (VNum 120 5); WAbandon; WBasic (VNum 121 7)]
   = Some ([7; 0;0;0;0; 0;0;0;0; 5;0;0;0;0;0;0;0], [121]).
 Proof. vm_compute. reflexivity. Qed.
+
+(* ---- C02 + C01 composed: sender's iterator -> wire -> loader -> receiver's iterator ------------------------
+   For EVERY well-formed abstract message m (unbounded body, both byte orders), any bytes following it in the
+   stream and any sufficient number of received descriptors:
+   (1) the DBusTypeWriter model, driven by the append calls for m's body, leaves exactly the body bytes and the
+       SIGNATURE that the canonical serialisation E of m contains;
+   (2) the loader model frames E ++ rest as one complete message and accepts it;
+   (3) header ++ body of the queued message are exactly E (nothing of [rest] leaks in, nothing is lost);
+   (4) the DBusTypeReader model, initialised as dbus_message_iter_init does on the queued message, reads back
+       exactly the values the sender appended.
+   Proof: composition of C02_writer_correct_message, C01_complete and the reader theorem (Proofs/EndToEnd.v).
+   Each of the three models is compared with libdbus separately (legs `writer`, loader cases, `reader`); the
+   build -> load -> dump cases of the C02 leg exercise the composition on the real library. *)
+From DV Require Import Wire.Message Wire.Reader Wire.Writer Proofs.LoaderComplete Proofs.EndToEnd.
+Theorem C02_writer_loader_reader : forall m rest avail,
+  wf_msg m = true -> spec_nfds (s_fields m) <= avail ->
+  let E := spec_encode_message m in
+  run_writer (s_le m) (ops_of_vals (s_body m)) = Some (m_bodyb m, s_sig m) /\
+  have_message DBUS_MAXIMUM_MESSAGE_LENGTH (E ++ rest) = HaveOk (s_le m) (m_flen m) (m_hlen m) (m_blen m) true /\
+  exists msg,
+    load_message (s_le m) (m_flen m) (m_hlen m) (m_blen m) avail (E ++ rest) = inl msg /\
+    m_header msg ++ m_body msg = E /\
+    m_body msg = m_bodyb m /\
+    read_all (s_le m) (s_sig m) (m_body msg) = inl (s_body m).
+Proof. exact writer_loader_reader. Qed.
+Print Assumptions C02_writer_loader_reader.
+
+(* non-vacuity: the premises hold for the example message with a nested body, in both byte orders *)
+Example C02_writer_loader_reader_ex :
+  wf_msg ex_built = true /\ spec_nfds (s_fields ex_built) <= 0 /\
+  wf_msg (swap_order ex_built) = true /\ s_body ex_built <> [].
+Proof. split; [vm_compute; reflexivity|]. split; [vm_compute; discriminate|]. split; [vm_compute; reflexivity|]. vm_compute. discriminate. Qed.
